@@ -144,6 +144,19 @@ var msgs = []string{"", "a", "b", "c", "d", "e", "f", "g", "x1", "y22", "boom", 
 
 func hexMsg(r *hx.Rng) string { return hx.Hex([]byte(hx.Pick(r, msgs))) }
 
+// plainOp creates a non-nil foreign error: errors.New, or a value of another kind (slice, map, func, chan, struct, string,
+// int error types; `slice0` is the non-nil zero-length slice, whose message is empty).
+func plainOp(r *hx.Rng) string {
+	if r.Bool() {
+		return "plain " + hexMsg(r)
+	}
+	k := hx.Pick(r, plainKinds)
+	if k == "slice0" {
+		return "plain - slice0"
+	}
+	return "plain " + hexMsg(r) + " " + k
+}
+
 type gen struct {
 	r     *hx.Rng
 	s     *sim
@@ -188,11 +201,15 @@ func (g *gen) create(k int) {
 	case 1:
 		g.out(k, sval{kind: kTnil}, "tnil")
 	case 2:
-		g.out(k, sval{kind: kFnil}, "fnil")
+		if r.Bool() {
+			g.out(k, sval{kind: kFnil}, "fnil")
+		} else {
+			g.out(k, sval{kind: kFnil}, "fnil "+hx.Pick(r, nilKinds))
+		}
 	case 3:
 		g.out(k, sval{kind: kRef, id: g.s.push(snode{next: -1, empty: true})}, "empty")
 	case 4, 5:
-		g.out(k, sval{kind: kPlain}, "plain "+hexMsg(r))
+		g.out(k, sval{kind: kPlain}, plainOp(r))
 	case 6, 7, 8:
 		g.out(k, sval{kind: kRef, id: g.s.push(snode{next: -1})}, hx.Pick(r, []string{"new ", "new ", "newf "})+hexMsg(r))
 	case 9:
@@ -214,7 +231,7 @@ func (g *gen) create(k int) {
 		for i := range parts {
 			parts[i] = g.fresh()
 			if r.Chance(1, 5) {
-				g.out(parts[i], sval{kind: kPlain}, "plain "+hexMsg(r))
+				g.out(parts[i], sval{kind: kPlain}, plainOp(r))
 			} else {
 				g.out(parts[i], sval{kind: kRef, id: g.s.push(snode{next: -1})}, "new "+hexMsg(r))
 			}
@@ -267,6 +284,12 @@ func (g *gen) history(maxOps int) {
 	g.lines++
 	for i, n := 0, r.Range(3, 9); i < n; i++ {
 		g.create(g.fresh())
+	}
+	if r.Chance(1, 3) { // typed nils of the other nilable kinds and a non-nil value of such a type, to be used in every position
+		for i, n := 0, r.Range(1, 3); i < n; i++ {
+			g.out(g.fresh(), sval{kind: kFnil}, "fnil "+hx.Pick(r, nilKinds))
+		}
+		g.out(g.fresh(), sval{kind: kPlain}, plainOp(r))
 	}
 	acc := g.anyVar() // the accumulator of the long chain
 	if acc >= g.nextV {
